@@ -6,6 +6,7 @@ import (
 	"fmt"
 	"os"
 	"path/filepath"
+	"runtime/pprof"
 	"sort"
 	"strconv"
 	"strings"
@@ -87,6 +88,8 @@ func main() {
 	work := flag.String("work", "/verif/work", "scratch directory for SMT files")
 	evidence := flag.String("evidence", "", "evidence file to write")
 	verbose := flag.Bool("v", false, "verbose")
+	sweep := flag.Bool("sweep", false, "translate every package function (debug)")
+	frameDbg := flag.String("frame", "", "run the FRAME analysis from one entry point and dump write events (debug)")
 	flag.Parse()
 	t0 := time.Now()
 	seed, _ := strconv.Atoi(os.Getenv("VERIF_SEED"))
@@ -118,6 +121,63 @@ func main() {
 		os.RemoveAll(dir)
 		dischargeAll(r.Obls, dir, timeout, 14)
 		printResult(r, true)
+		return
+	}
+	if *frameDbg != "" {
+		if pf := os.Getenv("GOVC_PROF"); pf != "" {
+			f, _ := os.Create(pf)
+			pprof.StartCPUProfile(f)
+			go func() { time.Sleep(25 * time.Second); pprof.StopCPUProfile(); f.Close(); os.Exit(3) }()
+		}
+		t := time.Now()
+		r := runFrame(l, *frameDbg)
+		fmt.Printf("functions reached: %d, write events: %d, cells: %d, iterations %d, %.2fs\n", len(r.a.reach), len(r.a.writes), len(r.a.content), r.a.iters, time.Since(t).Seconds())
+		if dbg := os.Getenv("GOVC_PTS"); dbg != "" {
+			for _, name := range strings.Split(dbg, ",") {
+				f := l.funcs[name]
+				if f == nil {
+					continue
+				}
+				for _, p := range f.Params {
+					fmt.Printf("pts(%s.%s) = %v\n", name, p.Name(), keysOf(r.a.get(p)))
+				}
+				for i, rs := range r.a.rets[f] {
+					fmt.Printf("ret(%s)#%d = %v\n", name, i, keysOf(rs))
+				}
+				for _, b := range f.Blocks {
+					for _, ins := range b.Instrs {
+						if v, ok := ins.(ssa.Value); ok && len(r.a.get(v)) > 0 {
+							fmt.Printf("   %s = %s : %v\n", v.Name(), ins.String(), keysOf(r.a.get(v)))
+						}
+					}
+				}
+			}
+			return
+		}
+		for _, o := range r.offending(func(c string) bool { return true }, nil) {
+			fmt.Println(" ", o)
+		}
+		return
+	}
+	if *sweep {
+		var ks []string
+		for k, fn := range l.funcs {
+			if fn.Pkg == l.spkg || fn.Parent() != nil {
+				ks = append(ks, k)
+			}
+		}
+		sort.Strings(ks)
+		nob := 0
+		for _, k := range ks {
+			fn := l.funcs[k]
+			if len(fn.Blocks) == 0 {
+				continue
+			}
+			r := verifyFunc(l.prog, l.spkg, l.contracts, fn, l.contracts.Funcs[k], verifyOpts{autoRecvNonNil: true})
+			nob += len(r.Obls)
+			fmt.Printf("%-60s obls=%d unsup=%s warnings=%d\n", k, len(r.Obls), r.Unsup, len(r.Warnings))
+		}
+		fmt.Println("total obligations", nob)
 		return
 	}
 	if *prop == "" {
@@ -366,3 +426,12 @@ func writeEvidence(p *PropRun, path string) error {
 }
 
 func round3(f float64) float64 { return float64(int(f*1000+0.5)) / 1000 }
+
+func keysOf(s cellSet) []string {
+	var out []string
+	for k := range s {
+		out = append(out, k)
+	}
+	sort.Strings(out)
+	return out
+}
